@@ -30,6 +30,23 @@ def spec_items(cases):
     return items
 
 
+def model_check(rep, cases, label):
+    """TLC: the cases as initial states of MC_RateLaw, one exact Euler step each."""
+    import json as _json, os as _os
+    from .vlib import tlc
+    from .vlib.report import MachineryError
+    p = _os.path.join(util.subdir("eval"), "ratelaw_%s.json" % label)
+    with open(p, "w") as f:
+        _json.dump(spec_items(cases), f)
+    r = tlc.run("MC_RateLaw", env={"IN_FILE": p}, timeout=1800)
+    rep.add_tlc("MC_RateLaw[%s] (%d cases)" % (label, len(cases)), r)
+    if not r.ok:
+        if r.violated:
+            rep.violation("model", "model:ratelaw:" + r.violated, {"tlc": r.tail(60)})
+        else:
+            raise MachineryError("TLC failed: %s\n%s" % (r.error, r.tail(25)))
+
+
 _lib = None
 
 
